@@ -7,6 +7,8 @@ package main
 
 import (
 	"fmt"
+	"github.com/tinode/chat/server/zzverif/memdb"
+	"github.com/tinode/chat/server/zzverif/vatomic"
 	"os"
 	"sort"
 	"strings"
@@ -394,7 +396,6 @@ func init() {
 
 func TestVerifC10Pres(t *testing.T) { vfXSearch(t, "C10", "pres", "pres") }
 
-
 // ---- races: attach / detach of 'me' by both partners at the same time ----------------------------
 
 type vfPresRaceObs struct {
@@ -485,9 +486,20 @@ func vfPresRace(name string, bound [2]int, pre func(p *vfPresWorld), race func(p
 			o.Outcome = strings.Join(outs, ",")
 			return o
 		},
-		Judge:   func(res vsched.Result, o any) []vfXViolation { return o.(*vfPresRaceObs).Violations },
-		Outcome: func(res vsched.Result, o any) string { if o == nil { return "" }; return o.(*vfPresRaceObs).Outcome },
-		Canon:   func(res vsched.Result, o any) string { if o == nil { return "" }; x := o.(*vfPresRaceObs); return x.Outcome + fmt.Sprint(len(x.Violations)) },
+		Judge: func(res vsched.Result, o any) []vfXViolation { return o.(*vfPresRaceObs).Violations },
+		Outcome: func(res vsched.Result, o any) string {
+			if o == nil {
+				return ""
+			}
+			return o.(*vfPresRaceObs).Outcome
+		},
+		Canon: func(res vsched.Result, o any) string {
+			if o == nil {
+				return ""
+			}
+			x := o.(*vfPresRaceObs)
+			return x.Outcome + fmt.Sprint(len(x.Violations))
+		},
 	}
 }
 
@@ -539,4 +551,128 @@ func TestVerifC10PresRaces(t *testing.T) {
 	r := vfev.New("C10", "presraces")
 	defer r.Finish()
 	vfRunScenarios(r, vfC10Scenarios())
+}
+
+// ---- a partner coming online (or going offline) inside the load of the user's 'me' topic -------------
+//
+// S: b attaches to 'me' (the topic is loaded: contacts are read, b is announced). R: the partner a
+// attaches to / leaves its own 'me', handled completely at every store-call boundary and atomic
+// operation of S. After the deferred notifications have fired, each side believes about the other what
+// is true (same oracle as the pres search).
+
+func TestVerifC10PresAtLoad(t *testing.T) {
+	r := vfev.New("C10", "pres-at-load")
+	defer r.Finish()
+	defer r.RecoverPanic()
+	shard, shards := vfev.Shard()
+	nb := 0
+	for _, sel := range []bool{false, true} { // which ready select case a run loop prefers: first / last in source order
+		for _, dir := range []string{"partner-comes-online", "partner-goes-offline", "partner-comes-online, plain attach"} {
+			events := 0
+			for k := 0; k <= events+1; k++ {
+				nb++
+				if k > 0 && nb%shards != shard {
+					continue
+				}
+				injected := false
+				where := "afterwards"
+				var bad []string
+				res := vsched.Run(vsched.Config{MaxSteps: 4000000, SelectLast: sel}, func() {
+					p := vfPresSetup()
+					rop := vfPresOp{"a1:sub me", "a1", "subme"}
+					if dir == "partner-goes-offline" {
+						p.apply(vfPresOp{"a1:sub me", "a1", "subme"})
+						vsched.Quiesce()
+						vsched.Advance(20 * time.Second)
+						rop = vfPresOp{"a1:leave me", "a1", "leaveme"}
+					}
+					n := 0
+					prev := memdb.OnCall
+					event := func(ev string) {
+						if injected {
+							return
+						}
+						n++
+						if n == k {
+							injected = true
+							where = fmt.Sprintf("at event %d (%s)", k, ev)
+							// the partner's request runs to completion here; the goroutine at this point is held
+							c := p.cl["a1"]
+							if rop.Kind == "subme" {
+								c.Post(fmt.Sprintf(`{"sub":{"id":"%s","topic":"me","get":{"what":"sub"}}}`, c.id()))
+							} else {
+								c.Post(fmt.Sprintf(`{"leave":{"id":"%s","topic":"me"}}`, c.id()))
+							}
+							vsched.Quiesce()
+						}
+					}
+					memdb.OnCall = func(name string) {
+						if prev != nil {
+							prev(name)
+						}
+						event("before store call " + name)
+					}
+					memdb.OnReturn = func(name string) { event("after store call " + name) }
+					vatomic.OnOp = func(write bool) { event("atomic operation") }
+					restore := func() { memdb.OnCall, memdb.OnReturn, vatomic.OnOp = prev, nil, nil }
+					vsched.OnKill(restore)
+					p.apply(vfPresOp{"b1:sub me", "b1", "subme"})
+					restore()
+					if k == 0 {
+						events = n
+					}
+					if !injected {
+						p.apply(rop)
+					}
+					vsched.Quiesce()
+					vsched.Advance(20 * time.Second)
+					vsched.Quiesce()
+					// beliefs: the last {pres on|off} about the partner since the attach, else the flag of {meta sub}
+					for _, obs := range []string{"a1", "b1"} {
+						ou, subj := obs[:1], "b"
+						if ou == "b" {
+							subj = "a"
+						}
+						if !p.attached(obs, p.meOf(ou)) {
+							continue
+						}
+						truth := p.online(subj)
+						believes := false
+						c := p.cl[obs]
+						seen := false
+						for _, f := range c.frames {
+							if f.Msg.Meta != nil {
+								for _, sb := range f.Msg.Meta.Sub {
+									if sb.Topic == p.users[subj].id() && !seen {
+										believes = sb.Online
+									}
+								}
+							}
+							if pr := f.Msg.Pres; pr != nil && pr.Topic == "me" && pr.Src == p.users[subj].id() && (pr.What == "on" || pr.What == "off") {
+								believes, seen = pr.What == "on", true
+							}
+						}
+						if believes != truth {
+							bad = append(bad, fmt.Sprintf("%s believes %s online=%v, truth %v", obs, subj, believes, truth))
+						}
+					}
+				})
+				name := dir + " " + where + map[bool]string{false: "", true: " (select prefers the last ready case)"}[sel]
+				r.Eval(1)
+				r.Distinct(fmt.Sprintf("%s/%d/%v", dir, k, sel))
+				r.States++
+				r.Transitions += int64(res.Steps)
+				r.Traces++
+				det := map[string]any{"case": name, "beliefs": bad}
+				for _, v := range vfStatusViolations(res) {
+					r.Violation("C10:pres-at-load:"+v.Key, name+": "+v.What, det)
+				}
+				r.Outcome(fmt.Sprintf("%s wrong-beliefs=%d", dir, len(bad)))
+				for _, b := range bad {
+					r.Violation("C10:presence-not-converged:during-load:"+dir, name+": after the deferred notifications have fired, "+b, det)
+				}
+			}
+		}
+	}
+	r.Sample("partner-comes-online at event 12 (after store call UserGet)")
 }
